@@ -7,6 +7,7 @@ import (
 	"fmt"
 	"go/types"
 	"math"
+	"strconv"
 
 	"golang.org/x/tools/go/ssa"
 )
@@ -133,6 +134,57 @@ func registerLibraryModels() {
 			}
 		}
 		return e.mkStr(out)
+	}
+	// strconv formatting of symbolic numbers: integers exactly (digit terms), floats as an opaque string
+	I["strconv.FormatInt"] = func(e *Engine, caller *frame, fn *ssa.Function, args []Value) Value {
+		if concreteIntArg(e, args[1], "FormatInt base") != 10 {
+			if args[0].(*Term).IsConst() {
+				return notHandled
+			}
+			e.unsupported("strconv.FormatInt of a symbolic value in a base other than 10")
+		}
+		return e.itoa(args[0].(*Term))
+	}
+	I["strconv.AppendInt"] = func(e *Engine, caller *frame, fn *ssa.Function, args []Value) Value {
+		if concreteIntArg(e, args[2], "AppendInt base") != 10 {
+			if args[1].(*Term).IsConst() {
+				return notHandled
+			}
+			e.unsupported("strconv.AppendInt of a symbolic value in a base other than 10")
+		}
+		dst := args[0].(Slice)
+		for _, b := range e.strBytes(e.itoa(args[1].(*Term))) {
+			dst = append(dst, b)
+		}
+		return dst
+	}
+	opaqueFloat := func(e *Engine) Str {
+		e.envCtr++
+		in := e.inputBytes(fmt.Sprintf("env.strconv.FormatFloat.%d", e.envCtr), 3)
+		e.noteStub("strconv.FormatFloat(symbolic float) -> opaque 3-byte string")
+		return e.mkStr(in.bs)
+	}
+	nativeFloat := func(e *Engine, x *Term, f, prec, bits Value) Str {
+		return Str{s: strconv.FormatFloat(x.F64(), byte(concreteIntArg(e, f, "fmt")), int(concreteIntArg(e, prec, "prec")), int(concreteIntArg(e, bits, "bitSize")))}
+	}
+	I["strconv.FormatFloat"] = func(e *Engine, caller *frame, fn *ssa.Function, args []Value) Value {
+		if x := args[0].(*Term); x.IsConst() {
+			return nativeFloat(e, x, args[1], args[2], args[3])
+		}
+		return opaqueFloat(e)
+	}
+	I["strconv.AppendFloat"] = func(e *Engine, caller *frame, fn *ssa.Function, args []Value) Value {
+		dst := args[0].(Slice)
+		var s Str
+		if x := args[1].(*Term); x.IsConst() {
+			s = nativeFloat(e, x, args[2], args[3], args[4])
+		} else {
+			s = opaqueFloat(e)
+		}
+		for _, b := range e.strBytes(s) {
+			dst = append(dst, b)
+		}
+		return dst
 	}
 	I["math.Log"] = func(e *Engine, caller *frame, fn *ssa.Function, args []Value) Value {
 		x := args[0].(*Term)
